@@ -54,16 +54,37 @@ class C09(Oracle):
                     if k != want and not i.is_blocked:
                         self.fail("queued-in-wrong-priority-line", "ind %s of class %s (priority %s) stands in priority line %s of node %s" % (
                             i.id_number, i.customer_class, want, k, nd.id_number))
-        if R.ev_type != "end_service":
-            return
+        main = None
+        if R.ev_type == "end_service":
+            main = self.after_end_service()
+        # pre-emptive reroutes (a shift end or a pre-empting arrival sends the victim on): transitions like any other,
+        # decided by the same routing object (next_node_for_rerouting defaults to next_node)
+        for ev in R.log.micro[R.micro_from:]:
+            if ev[2] != "rel" or ev[6] or ev is main:
+                continue
+            nid, d, iid = ev[3], ev[4], ev[5]
+            ind = self.find(iid)
+            if ind is None:
+                continue
+            for r in reversed(ind.data_records):
+                if r.record_type == "interrupted service" and r.node == nid and r.exit_date == R.t and r.destination == d:
+                    R.counts["C09:reroute_transitions"] += 1
+                    self.decisions += 1
+                    self.check_route(r.customer_class, nid, d, ind, reroute=True)
+                    break
+
+    def after_end_service(self):
+        R = self.R
         j = R.ev_nid
         first = None
         for ev in R.log.micro[R.micro_from:]:
             if ev[2] == "blk" and ev[3] == j:
                 first = (ev[5], ev[4], True)
+                main = ev
                 break
             if ev[2] == "rel" and ev[3] == j:
                 first = (ev[5], ev[4], False)
+                main = ev
                 break
         if first is None:
             self.fail("end-of-service-without-transition", "node %s at %r" % (j, R.t))
@@ -91,8 +112,9 @@ class C09(Oracle):
             self.fail("class-changed-without-matrix", "ind %s at node %s changed %s -> %s" % (iid, j, old, new))
         self.decisions += 1
         self.check_route(new, j, d, ind)
+        return main
 
-    def check_route(self, cls, j, d, ind):
+    def check_route(self, cls, j, d, ind, reroute=False):
         R = self.R
         n = R.S["n"]
         rt = R.S["routing"][cls]
@@ -129,7 +151,11 @@ class C09(Oracle):
                 if d != exp:
                     self.fail("cycle-router-out-of-step", "decision %d of Cycle%r at node %s class %s went to %s, expected %s" % (c, x["cycle"], j, cls, d, exp))
             elif kk in ("jsq", "lb"):
-                self.check_shortest(kk, x["dests"], x["tb"], d, iid, j)
+                if reroute:
+                    if d not in x["dests"]:
+                        self.fail("destination-not-listed", "ind %s rerouted %s -> %s, %s router lists %r" % (iid, j, d, kk, x["dests"]))
+                else:
+                    self.check_shortest(kk, x["dests"], x["tb"], d, iid, j)
             return
         if k == "pb":
             self.kinds.add("pb")
@@ -158,7 +184,8 @@ class C09(Oracle):
             if d not in cur:
                 self.fail("process-route-not-followed", "ind %s went %s -> %s, current set %r" % (iid, j, d, cur))
             if rt["choice"] in ("jsq", "lb"):
-                self.check_shortest(rt["choice"], cur, "random", d, iid, j)
+                if not reroute:
+                    self.check_shortest(rt["choice"], cur, "random", d, iid, j)
             if rt["rule"] == "any":
                 rem.pop(0)
             else:
